@@ -136,3 +136,11 @@ SQL_FUNCTION_FORM_CAVEATS = {
     ("PostgreSQLModel", "LOG", 1): "LOG(x) is the base-10 logarithm in PostgreSQL; the natural logarithm is LN(x)",
     ("SQLiteModel", "MAX", 2): "the two-argument scalar MAX returns NULL if any argument is NULL (propagates); as an aggregate it ignores NULL",
 }
+
+
+# aggregators that collapse a whole partition to one value.  Pandas realises `x.<agg>()` in a window as groupby.transform(<agg>) — the
+# whole partition on every row — whatever order_by says; SQL's `<AGG>(x) OVER (PARTITION BY … ORDER BY …)` has the default frame
+# RANGE BETWEEN UNBOUNDED PRECEDING AND CURRENT ROW, i.e. a *running* aggregate.  The two agree only without ORDER BY, so the library
+# forbids these names in ordered windows (expr_rep.fn_names_that_contradict_ordered_windowed_situation).
+WHOLE_PARTITION_AGGREGATORS = {"all", "any", "any_value", "count", "max", "mean", "median", "min", "nunique", "prod", "size", "_size", "sum",
+                               "std", "var"}
